@@ -11,13 +11,17 @@ GOFLAGS=-mod=mod GOPROXY=off go run ./cmd/factgen /repo /verif/lean/Generated/Fa
 # f128 (calls into the regenerated SSA_Num definitions, so after it) and geom (Rect/Point/Matrix over an abstract number type: second tie of C18)
 (cd /verif/gossa && GOFLAGS=-mod=mod GOPROXY=off go run . /repo /verif/lean/Generated/SSA_F128.lean f128 >/dev/null) || echo "setup: ssagen f128 failed (the C03 check will report it)"
 (cd /verif/gossa && GOFLAGS=-mod=mod GOPROXY=off go run . /repo /verif/lean/Generated/SSA_Geom.lean geom >/dev/null) || echo "setup: ssagen geom failed (the C18 check will report it)"
+# lock-state tables of the four mutex-guarded packages (lock-discipline tie of C12 C13 C16 C17)
+for t in rotation tracelog rate notifier; do
+  (cd /verif/gossa && GOFLAGS=-mod=mod GOPROXY=off go run ./lockfacts /repo /verif/lean/Generated/Lock_$t.lean -only $t -bare >/dev/null) || echo "setup: lockfacts $t failed (the check will report it)"
+done
 cd /verif/lean || exit 1
 for f in Props/C[0-9][0-9].lean; do
   [ -f "$f" ] || continue
   id=$(basename "$f" .lean)
   n=$(echo "$id" | tr 'C' 'c')
   if [ -f "Driver/$id.lean" ]; then
-    extra=""; for g in Props/${id}Gen*.lean; do [ -f "$g" ] && extra="$extra Props.$(basename "$g" .lean)"; done
+    extra=""; for g in Props/${id}Gen*.lean Props/${id}Lock.lean; do [ -f "$g" ] && extra="$extra Props.$(basename "$g" .lean)"; done
     lake build "Props.$id" $extra "drv_$n" || echo "setup: lake build Props.$id drv_$n failed (the check will report it)"
   else
     lake build "Props.$id" || echo "setup: lake build Props.$id failed"
